@@ -197,6 +197,10 @@ func runC06(c *Cfg) {
 		if i%6 == 1 && cs.Build == "builder" {
 			cs.Shape, cs.ExecStyle = "results-with-errors", "result" // error Results among the items: still items, in prep's order
 		}
+		if i%6 == 3 && cs.Shape == "results" {
+			cs.Odd = &OddItem{I: rg.IntN(cs.N), Kind: []string{"nil", "error"}[(i/6)%2]} // one item without a payload: exec is still called for it, slot i is what exec made of it
+			cs.Items[cs.Odd.I].EVal = false
+		}
 		cs.CtxLike = i%5 == 2 // failing items report a per-item timeout (an error that wraps a context error): an item failure like any other
 		if i%4 == 0 {
 			cs.ErrResult = true // failures reported as (NewErrorResult(e), nil): the error state must reach the slot as it is
@@ -306,10 +310,10 @@ func runC06(c *Cfg) {
 			}
 		}
 	}
-	for _, sh := range []string{"single", "nil", "empty-results", "empty-any"} {
+	for _, sh := range []string{"single", "single-nil-ptr", "single-nil-map", "nil", "empty-results", "empty-any"} {
 		for _, cc := range []int{0, 2} {
 			n := 0
-			if sh == "single" {
+			if strings.HasPrefix(sh, "single") {
 				n = 1
 			}
 			b := "compose"
@@ -512,6 +516,7 @@ func runC07(c *Cfg) {
 		}
 		cs.CtxLike = rg.IntN(4) == 0 // per-attempt timeouts: ordinary failures as far as the batch is concerned
 		cs.TempErrs = !cs.CtxLike && rg.IntN(5) == 0
+		cs.AggErrs = !cs.CtxLike && !cs.TempErrs && i%4 == 1
 		if i%14 == 9 && budget >= 2 && !cs.Gated && cs.Prelude == nil {
 			// the context carries a deadline that is far enough away for every item's whole retry schedule: it changes nothing
 			cs.WaitMs, cs.SleepUs = 2, 0
@@ -524,6 +529,9 @@ func runC07(c *Cfg) {
 		}
 		if i%9 == 5 && cs.Shape == "results" {
 			cs.Shape, cs.ExecStyle = "results-with-errors", "result" // items that arrive as error Results are processed like any other
+		}
+		if i%9 == 7 && cs.Shape == "results" && cs.Prelude == nil {
+			cs.Odd = &OddItem{I: rg.IntN(cs.N), Kind: []string{"nil", "error"}[(i/9)%2]} // one item without a payload of its own (both exec forms): processed like any other
 		}
 		if i%11 == 6 && cs.Build != "compose" {
 			// the node ran before with another budget (and possibly the other error-handling mode) and was then
@@ -804,6 +812,12 @@ func runC09(c *Cfg) {
 						cs := &BatchCase{Family: "stop-grid", N: n, C: cc, Stop: stop, SetMode: true, Budget: budget, FB: fb, Items: it, Shape: "results", Build: build, ExecStyle: []string{"result", "any"}[idx%2], Gated: true, Policy: pols[idx%4], PSeed: uint64(c.Seed)*1000003 + uint64(idx)}
 						if variant == 1 && cc > 1 {
 							cs.Policy = "holdfail"
+						}
+						if idx%7 == 2 && build == "builder" {
+							cs.PrepSets = &PrepSets{BuiltC: []int{0, 1, 3}[idx/7%3]} // the node is built in the other mode (and with another concurrency); its prep chooses this run's mode
+						}
+						if idx%5 == 3 {
+							cs.Odd = &OddItem{I: f, Kind: []string{"nil", "error"}[(idx/5)%2]} // the failing item is one without a payload of its own: its failure counts like any other
 						}
 						cs.CtxLike = idx%5 == 0 // a per-item timeout is an ordinary failure: it stops the batch like any other
 						cases = append(cases, cs)
